@@ -180,6 +180,53 @@ def check_gradient(n, shape, crit, batches, magnitude=0.0):
     return out
 
 
+def check_gradient_descent(variant, crit, n, iters, start):
+    """The gradient evaluator as the GradientDescent algorithm drives it: for every design the run recorded, the stored
+    gradient is the forward quotient of the first objective, and the run used exactly (n+1) calls per design."""
+    from artap.algorithm_gradient_descent import GradientDescent
+    from artap.operators import CustomGenerator
+    from ..core import shim as shim_mod
+    from .c_support import make_problem, reset_ids
+    reset_ids()
+    f = objective("sumsq", 1)
+    problem = make_problem(n_params=n, bounds=[[-50.0, 50.0]] * n, criteria=[crit], f=f)
+    gen = CustomGenerator(problem.parameters)
+    gen.init([list(start[:n])])
+    sh = shim_mod.install()
+    sh.reset(5, None)
+    desc = "GradientDescent(%s) crit=%s n=%d iterations=%d start=%r" % (variant, crit, n, iters, start[:n])
+    try:
+        alg = GradientDescent(problem, generator=gen)
+        alg.options['algorithm'] = variant
+        alg.options['n_iterations'] = iters
+        alg.options['step'] = 0.05
+        alg.options['verbose_level'] = 0
+        alg.run()
+    except Exception as e:
+        return [("C14:gradient-descent:exception:%s" % type(e).__name__, "%s raised %r" % (desc, e))]
+    finally:
+        sh.ctx = None
+    out = []
+    designs_seen = [i for i in problem.individuals if i.features.get('gradient') is not None and len(i.features.get('gradient')) == n]
+    if len(designs_seen) < iters + 1:
+        out.append(("C14:gradient-descent:designs", "%d designs carry a gradient, expected at least %d; %s" % (len(designs_seen), iters + 1, desc)))
+    for k, ind in enumerate(designs_seen):
+        x = list(ind.vector)          # same number types as the implementation sees (numpy scalars after the first step)
+        g = ind.features['gradient']
+        for i in range(n):
+            v = list(x)
+            v[i] += 1e-4
+            exp = float((f(v)[0] - f(x)[0]) / 1e-4)
+            if float(g[i]) != exp:
+                out.append(("C14:gradient-descent:quotient:%s" % crit, "design %d at %r: stored d/dx%d = %r, forward quotient of the first objective %r; %s" % (k, x, i, float(g[i]), exp, desc)))
+                return out
+    if variant != "adaptive":       # the Armijo search evaluates trial points on top
+        calls = len(problem.h_log)
+        if calls != (n + 1) * len(designs_seen):
+            out.append(("C14:gradient-descent:calls", "%d objective calls for %d designs, expected %d; %s" % (calls, len(designs_seen), (n + 1) * len(designs_seen), desc)))
+    return out
+
+
 def run_body_factory(name, N, G, seed):
     def body(ctx):
         from artap.algorithm import EvaluatorType
@@ -265,6 +312,15 @@ def _shard(shard, col: Collector):
             for bs in ((3, 3), (1, 1, 1, 1), (4,)):
                 rec("grad", {"n": n, "shape": "linear", "crit": "minimize", "batches": bs}, check_gradient(n, "linear", "minimize", bs), True)
         col.sample({"kind": "gradient", "n": 2, "shape": "sumsq", "batches": [1, 2]}, 1)
+    elif kind == "gd":
+        for variant in ("fixed", "adaptive", "adagrad", "rmsprop", "adam"):
+            for crit in ("minimize", "maximize"):
+                for n in (1, 2, 3):
+                    for iters in (1, 3):
+                        for start in ((0.8, -1.2, 2.0), (-3.0, 0.5, 0.25)):
+                            rec("gd", {"variant": variant, "crit": crit, "n": n, "iters": iters, "start": start},
+                                check_gradient_descent(variant, crit, n, iters, start), True)
+        col.sample({"kind": "gradient evaluator driven by GradientDescent", "variants": ["fixed", "adaptive", "adagrad", "rmsprop", "adam"]}, 1)
     elif kind == "run":
         _, name, N, G, seed = shard
         body = run_body_factory(name, N, G, seed)
@@ -281,6 +337,8 @@ def replay(sub, case):
                            tuple(case.get("fail_calls", ())))
     if sub == "grad":
         return check_gradient(case["n"], case["shape"], case["crit"], tuple(case["batches"]), case.get("magnitude", 0.0))
+    if sub == "gd":
+        return check_gradient_descent(case["variant"], case["crit"], case["n"], case["iters"], tuple(case["start"]))
     if sub == "run":
         ctx, out = run_once(run_body_factory(case["name"], case["N"], case["G"], case["seed"]), case["choices"])
         return out
@@ -289,7 +347,7 @@ def replay(sub, case):
 
 def run(tier, seed):
     import artap.algorithm_NSGAII, artap.algorithm_genetic  # noqa: F401,E401
-    shards = [("worst", n, m) for n in (1, 2, 3) for m in (1, 2)] + [("grad",)]
+    shards = [("worst", n, m) for n in (1, 2, 3) for m in (1, 2)] + [("grad",), ("gd",)]
     for name in ("EpsMOEA", "NSGAII"):
         for N in (2, 3):
             for G in (2, 3):
